@@ -257,8 +257,20 @@ class V2World:
     # ---- SGX elements -----------------------------------------------------------------
     def report_body(self, report_data_head, tag):
         r = Rng("%s-rb-%s" % (self.label, tag))
-        body = bytearray(r.bytes(384))
-        body[320:384] = report_data_head + r.bytes(64 - len(report_data_head))
+        body = bytearray(r.nz_bytes(384))
+        # every field differs from every other field of its size (swapped struct rows must show):
+        # miscselect (uint32) vs the quote's tee_type; the three uint16 isvprodid/isvsvn/configsvn
+        # get distinct high nibbles, the two uint64 attributes distinct top bytes
+        body[16 + 3] = 0x5A
+        body[48 + 7], body[56 + 7] = 0x11, 0x22
+        body[256 + 1] = 0x10 | (body[256 + 1] & 0x0F)
+        body[258 + 1] = 0x20 | (body[258 + 1] & 0x0F)
+        body[260 + 1] = 0x30 | (body[260 + 1] & 0x0F)
+        for i, off in enumerate((0, 32, 304)):            # 16-byte fields
+            body[off] = 0xA0 + i
+        for i, off in enumerate((64, 96, 128, 160)):      # 32-byte fields
+            body[off] = 0xB0 + i
+        body[320:384] = report_data_head + r.nz_bytes(64 - len(report_data_head))
         return bytes(body)
 
     def att_element(self, name, signed_by, signer, key_name="attkey", auth=None, key_fmt="uncompressed",
@@ -277,7 +289,9 @@ class V2World:
             r = Rng(self.label + "-custom")
             custom = b"POWHSM:5.4::sgx" + r.bytes(32) + r.bytes(32) + r.bytes(32) + r.bytes(8) + bytes(8)
         r = Rng(self.label + "-quotehead")
-        head = b"\x03\x00\x02\x00" + bytes(4) + b"\x0a\x00\x0f\x00" + r.bytes(16) + bytes(20)
+        # version, sign_type, tee_type, qe_svn, pce_svn all different; uuid / user_data non-zero
+        head = b"\x03\x00\x02\x00" + b"\x81\x00\x00\x7b" + b"\x0a\x00\x0f\x00" + b"\xa9" + r.nz_bytes(15) \
+            + r.nz_bytes(20)
         assert len(head) == 48
         msg = head + self.report_body(hashlib.sha256(custom).digest(), "quote-%d" % len(custom)) + extra
         sig = self.ec_sign(signer, msg, signer_curve)
